@@ -353,7 +353,7 @@ def leaf_case(ctx, rng, idx):
 def composed_case(ctx, rng, idx):
     n_ids = int(rng.integers(1, 6))
     leaves = GP.random_composition(rng, n_ids, max_parts=4, max_dim=3,
-                                   p_cov=0.3, cov_kinds='GLTP')
+                                   p_cov=0.3, cov_kinds='GLTPH')
     force = len(leaves) == 1 and rng.random() < 0.5
     reduced = rng.random() < 0.35
     upstream = bool(rng.integers(2))
